@@ -293,6 +293,9 @@ impl Sched {
         let g = self.wait_turn(g, me);
         if g.status.is_some() && me == "M" {
             drop(g);
+            if let Some(f) = ON_RUN_OVER.get() {
+                f(); // prints the report and exits the process
+            }
             std::panic::panic_any(RunOver);
         }
     }
@@ -353,6 +356,10 @@ impl Sched {
 
 /// payload of the panic that unwinds the main thread when the run is over early
 pub struct RunOver;
+
+/// called by the main thread at the scheduling point at which it learns that the run is over early; expected to
+/// report and exit the process (so that no destructor of the code under test runs during an unwind)
+pub static ON_RUN_OVER: std::sync::OnceLock<Box<dyn Fn() + Send + Sync>> = std::sync::OnceLock::new();
 
 pub struct Hook;
 pub static HOOK: Hook = Hook;
